@@ -720,7 +720,11 @@ def compile_oracle(ctx, r, thorough):
                 if why:
                     excl["%s:%s" % (tag, x["file"])] = why
                     continue
-                ctx.fail("%s:%s:%s" % (spec["config"], x["file"], x["err"]),
+                kfile, kerr = x["file"], x["err"]
+                if spec.get("gen"):
+                    # generated libraries: names carry random numbers; the key is construct + normalised error
+                    kfile, kerr = re.sub(r"\d+", "#", kfile), re.sub(r"\d+", "#", kerr)
+                ctx.fail("%s:%s:%s" % (spec["config"], kfile, kerr),
                          "%s rejects %s generated for %s: %s" % (x["tool"], x["file"], tag, x["err"]),
                          dict(rp, file=x["file"], tool=x["tool"], log=x["log"]))
         for b in res["brackets"]:
